@@ -3,10 +3,10 @@ package main
 // C07 (anti-MEV phase discipline) and C05 (one decision, quiescence, clean reset) and C08.
 
 import (
-	"os"
 	"fmt"
 	"go/ast"
 	"go/types"
+	"os"
 	"sort"
 	"strings"
 )
@@ -197,7 +197,9 @@ func ruleHeaderAfterPreBlock(c *RC) *RuleResult {
 		cb   string
 		want func() *Formula
 	}{
-		{"cb:NewBlockFromContext", func() *Formula { return fOr(fNot(fRSR()), fAnd(fAMEV(), fNot(bl(fld("ctx.preBlockProcessed", false))))) }},
+		{"cb:NewBlockFromContext", func() *Formula {
+			return fOr(fNot(fRSR()), fAnd(fAMEV(), fNot(bl(fld("ctx.preBlockProcessed", false)))))
+		}},
 		{"cb:NewPreBlockFromContext", func() *Formula { return fNot(fRSR()) }},
 	} {
 		seen := map[*FuncInfo]bool{}
@@ -226,7 +228,7 @@ func ruleHeaderAfterPreBlock(c *RC) *RuleResult {
 	for _, s := range c.callSites("cb:ProcessBlock") {
 		for _, sn := range s.Snaps {
 			r.Sites++
-			if len(sn.Args) == 1 && sn.Args[0].S == "ctx.block" {
+			if len(sn.Args) == 1 && (sn.Args[0].S == "ctx.block" || c.resultOfCacheGetter(sn.Args[0], "ctx.block") && nilAgrees(sn, "ctx.block")) {
 				r.ok("ProcessBlock(ctx.block)")
 			} else {
 				r.fail(s.Fn.Name+"/ProcessBlock-arg", c.Prog.Pos(s.Node), "ProcessBlock is not handed the cached block field")
@@ -236,7 +238,7 @@ func ruleHeaderAfterPreBlock(c *RC) *RuleResult {
 	for _, s := range c.callSites("cb:ProcessPreBlock") {
 		for _, sn := range s.Snaps {
 			r.Sites++
-			if len(sn.Args) == 1 && sn.Args[0].S == "ctx.preBlock" {
+			if len(sn.Args) == 1 && (sn.Args[0].S == "ctx.preBlock" || c.resultOfCacheGetter(sn.Args[0], "ctx.preBlock") && nilAgrees(sn, "ctx.preBlock")) {
 				r.ok("ProcessPreBlock(ctx.preBlock)")
 			} else {
 				r.fail(s.Fn.Name+"/ProcessPreBlock-arg", c.Prog.Pos(s.Node), "ProcessPreBlock is not handed the cached pre-block field")
@@ -431,29 +433,29 @@ func ruleResetCover(c *RC) *RuleResult {
 	info := ew.Pkg.TypesInfo
 	sized := map[string]bool{}
 	for _, cf := range c.Prog.dbftFuncs() {
-	if !c.inEpoch(cf) {
-		continue
-	}
-	cfn := cf
-	ast.Inspect(cf.Decl.Body, func(n ast.Node) bool {
-		as, ok := n.(*ast.AssignStmt)
-		if !ok || len(as.Lhs) != 1 || len(as.Rhs) != 1 {
+		if !c.inEpoch(cf) {
+			continue
+		}
+		cfn := cf
+		ast.Inspect(cf.Decl.Body, func(n ast.Node) bool {
+			as, ok := n.(*ast.AssignStmt)
+			if !ok || len(as.Lhs) != 1 || len(as.Rhs) != 1 {
+				return true
+			}
+			sel, ok := ast.Unparen(as.Lhs[0]).(*ast.SelectorExpr)
+			if !ok {
+				return true
+			}
+			call, ok := ast.Unparen(as.Rhs[0]).(*ast.CallExpr)
+			if !ok || len(call.Args) < 2 {
+				return true
+			}
+			// second argument must be len(Validators) or a local assigned from it
+			if isLenValidators(info, cfn, call.Args[len(call.Args)-1]) {
+				sized[sel.Sel.Name] = true
+			}
 			return true
-		}
-		sel, ok := ast.Unparen(as.Lhs[0]).(*ast.SelectorExpr)
-		if !ok {
-			return true
-		}
-		call, ok := ast.Unparen(as.Rhs[0]).(*ast.CallExpr)
-		if !ok || len(call.Args) < 2 {
-			return true
-		}
-		// second argument must be len(Validators) or a local assigned from it
-		if isLenValidators(info, cfn, call.Args[len(call.Args)-1]) {
-			sized[sel.Sel.Name] = true
-		}
-		return true
-	})
+		})
 	}
 	for _, t := range append(append([]string{}, payloadTables...), "LastSeenMessage") {
 		r.Sites++
@@ -1174,4 +1176,50 @@ func (c *RC) reachesFn(from, to *FuncInfo, depth int) bool {
 		}
 	}
 	return false
+}
+
+
+// resultOfCacheGetter: t is the result of a module function every exit of which returns nil or the cached field loc
+// (the lazy constructor of that cache: a local holding its result is the cached object).
+func (c *RC) resultOfCacheGetter(t *Term, loc string) bool {
+	if t != nil && t.K == KNil {
+		return true // the lazy constructor returned nothing: the local and the cache field are both nil (judged by sameAsCache)
+	}
+	if t == nil || t.K != KLocal || !strings.HasPrefix(t.Name, "ret:") {
+		return false
+	}
+	name := strings.TrimPrefix(t.Name, "ret:")
+	if i := strings.LastIndex(name, ":"); i >= 0 {
+		name = name[:i]
+	}
+	fn := c.Prog.fn(name)
+	if fn == nil {
+		return false
+	}
+	n := 0
+	for _, e := range c.exitsFrom(fn, newState(), true) {
+		if len(e.Ret) != 1 || e.Ret[0] == nil {
+			return false
+		}
+		if e.Ret[0].K == KNil {
+			continue
+		}
+		if e.Ret[0].S != loc {
+			if v, ok := e.FieldVal[loc]; !ok || v == nil || v.S != e.Ret[0].S {
+				return false
+			}
+		}
+		n++
+	}
+	return n > 0
+}
+
+
+// nilAgrees: a nil argument stands for the cache field only on a path where the field is nil too.
+func nilAgrees(sn *Snap, loc string) bool {
+	if len(sn.Args) != 1 || sn.Args[0] == nil || sn.Args[0].K != KNil {
+		return true
+	}
+	v, ok := sn.F.value(mkAtom("nn", fld(loc, false), nil))
+	return ok && !v
 }
